@@ -344,21 +344,39 @@ func main() {
 	// first 50 disagreements only).
 	// writer-level scheduling tier (wsched.go): the shutdown leg of both writers in every order with enqueues, ticks,
 	// flush results and cancellations. Templates first (deterministic), then the random walk.
+	// A scenario the harness cannot conduct (a command that should be executable is not, the process does not become
+	// quiescent, a frame is not where the template expects it) ends the campaign - what follows could not be trusted -
+	// but NOT the run: everything observed up to that point was observed in a sane state and is judged. The failure
+	// itself is an op line the model cannot answer (a broken tie, reported as such unless a spec-backed line of this
+	// run is a concrete failing input).
+	extra := map[string]interface{}{}
+	bail := func(msg string) {
+		fmt.Fprintln(os.Stderr, "c07:", msg)
+		for _, d := range deferred {
+			out.Case(d.op, d.ans, d.cls, true)
+		}
+		out.Case("harness-fatal "+strings.Join(strings.Fields(msg), " "), "fatal", "fatal", true)
+		extra["campaign_cut_short"] = msg
+		out.Close(extra)
+		os.Exit(0)
+	}
 	wcaseOut := func(c wcase) {
 		if c.cls == "fatal" {
-			fmt.Fprintln(os.Stderr, "c07:", c.sop)
-			os.Exit(3)
+			bail(c.sop)
 		}
 		out.Case(c.top, "accept", "wtrace", true)
 		deferred = append(deferred, schedCase{c.sop, c.ans, c.cls})
 	}
 	for ci := 0; ci < 4; ci++ {
 		conf := wconf{coal: ci%2 == 1, wt: ci/2 == 1, lens: []int{40, 25, 31}}
-		for kind := 0; kind < 3; kind++ {
+		for kind := 0; kind < 5; kind++ {
 			for mid := 0; mid <= 2; mid++ {
 				cutsT := []int{1, 8, 9, 10, 39}
 				if kind == 1 {
 					cutsT = []int{0, 5}
+				}
+				if kind == 4 {
+					cutsT = []int{0, 1, 9, 39}
 				}
 				if tier == "thorough" {
 					cutsT = nil
@@ -371,10 +389,10 @@ func main() {
 					if tier == "thorough" {
 						kinds = errKinds
 					}
-					if kind == 2 {
+					if kind == 2 || kind == 4 {
 						kinds = append(kinds, "ok")
 					}
-					if kind == 1 {
+					if kind == 1 || kind == 3 {
 						kinds = []string{"ok"}
 					}
 					for _, ek := range kinds {
@@ -412,8 +430,7 @@ func main() {
 					}
 					sop, ans, top, cls := runSizeTemplate(conf, totals, hold, kind)
 					if strings.HasPrefix(sop, "fatal") {
-						fmt.Fprintln(os.Stderr, "c07:", sop)
-						os.Exit(3)
+						bail(sop)
 					}
 					out.Case(top, "accept", "trace2", true)
 					if sop != "" {
@@ -483,8 +500,7 @@ func main() {
 		sc.hold = r.Intn(3) == 0 && sc.coalesce == 0
 		op, cls := runScenario(sc)
 		if strings.HasPrefix(op, "fatal") {
-			fmt.Fprintln(os.Stderr, "c07:", op)
-			os.Exit(3)
+			bail(op)
 		}
 		co := "direct"
 		if sc.coalesce > 0 {
@@ -500,12 +516,10 @@ func main() {
 		out.Case(op, "accept", cls, true)
 	}
 	// vectored-write tier: the real writers over loopback TCP (writev path of net.Buffers.WriteTo)
-	extra := map[string]interface{}{}
 	for i := 0; i < 24*mult; i++ {
 		op, cls := runWritev(r)
 		if strings.HasPrefix(op, "fatal") {
-			fmt.Fprintln(os.Stderr, "c07:", op)
-			os.Exit(3)
+			bail(op)
 		}
 		if op == "" { // no loopback TCP here: the draws were made (same PRNG stream), the tier is skipped
 			extra["writev_tier_skipped"] = cls
@@ -522,8 +536,7 @@ func main() {
 		conf := sconf{proto: []int{4, 3, 2}[r.Intn(3)], coal: i%2 == 1, wt: (i/2)%2 == 1}
 		sop, ans, top, cls := runSched(r, conf)
 		if strings.HasPrefix(sop, "fatal") {
-			fmt.Fprintln(os.Stderr, "c07:", sop)
-			os.Exit(3)
+			bail(sop)
 		}
 		out.Case(top, "accept", "trace2", true)
 		if sop != "" {
@@ -554,8 +567,7 @@ func main() {
 					}
 					sop, ans, top, cls, ok := runTemplate(conf, cf, o, kind)
 					if strings.HasPrefix(sop, "fatal") {
-						fmt.Fprintln(os.Stderr, "c07:", sop)
-						os.Exit(3)
+						bail(sop)
 					}
 					if !ok {
 						if tier == "thorough" {
@@ -597,8 +609,7 @@ func main() {
 					for _, kind := range kinds {
 						sop, ans, top, cls, ok := runTemplate(conf, cf, o, kind)
 						if strings.HasPrefix(sop, "fatal") {
-							fmt.Fprintln(os.Stderr, "c07:", sop)
-							os.Exit(3)
+							bail(sop)
 						}
 						if !ok {
 							continue
